@@ -22,7 +22,7 @@ RULE = ("(a) exhaustive: all call sequences of length <= 3 over 6 actions x cate
         "(broker, category, budget, sequence); trivial = none")
 ASSUMPTIONS = ["Redis and RabbitMQ are wire-level fakes", "broker calls are counted by harness-side recorders at the broker boundary (top level only)"]
 EVAL_COUNTER = "calls_judged"
-REQUIRED = ["calls_judged", "refusals_checked", "second_actions_checked", "eager_sequences", "callback_orders_checked", "eager_in_dependency", "sequences_with_refused_retry", "category_by_plain_name", "overdrawn_handles"]
+REQUIRED = ["calls_judged", "refusals_checked", "second_actions_checked", "eager_sequences", "callback_orders_checked", "eager_in_dependency", "sequences_with_refused_retry", "category_by_plain_name", "overdrawn_handles", "sequences_with_failing_callback"]
 CASE_TIMEOUT = 120
 
 ACTIONS = ("ack", "nack", "reject", "reschedule", "retry", "force_retry")
@@ -48,6 +48,8 @@ def gen_cases(tier, seed):
                 pres.append(p[:pos] + ("X",) + p[pos:])
     # ... and with ONE callable object registered more than once ("B")
     pres += [tuple(x) for x in ("BBR", "BBE", "BRB", "BAB", "BBRA", "BABR", "ABBR", "RBB", "BBRB")]
+    # a failing callback in front of other callbacks and of the result store
+    pres += [tuple(x) for x in ("FS", "FA", "FR", "FE", "FSR", "SFR", "FRS", "FFA", "RFS", "AFEA", "FBB")]
     for kind in (("mem",) if tier == "quick" else ("mem", "redis")):
         for i in range(0, len(pres), 17):
             cases.append({"type": "eager", "kind": kind, "pres": ["".join(p) for p in pres[i:i + 17]]})
@@ -175,6 +177,10 @@ async def eager_sequences(loop, kind, pres, out, stats, fps, samples):
                         steps_pre.append(["set_result", {"v": len(steps_pre)}])
                     elif ch == "E":
                         steps_pre.append(["set_exception", "KeyError", f"x{len(steps_pre)}"])
+                    elif ch == "F":
+                        # a callback that fails: logged, and everything registered after it still happens
+                        ci += 1
+                        steps_pre.append(["callback", f"c{ci}-raise-{'async' if ci % 2 else 'sync'}"])
                     else:
                         ci += 1
                         steps_pre.append(["callback", f"c{ci}-{'async' if ch == 'A' else ('shared' if ch == 'B' else 'sync')}"])
@@ -238,6 +244,8 @@ async def eager_sequences(loop, kind, pres, out, stats, fps, samples):
             exp = []
             ci = 0
             cbs_before_latest_set = None
+            if "F" in pre:
+                stats["sequences_with_failing_callback"] += 1
             if "X" in pre:
                 stats["sequences_with_refused_retry"] += 1
                 if not any(e["k"] == "retry_refused" for e in ev):
